@@ -47,6 +47,9 @@ impl Monitor for C05 {
             ("append_at_future_gap", tier.pick(500, 10_000)),
         ]
     }
+    fn library_panic_is_violation(&self) -> bool {
+        true
+    }
     fn rule(&self) -> String {
         "case = one generated history (60..140 calls, 1..5 queues, all argument shapes incl. rejected/no-op ones); evaluation = one call whose outcome AND whole observable state (list/exists/range for a family of bounds/last_position/last_record/summary) were compared with the sequential model; distinct_nontrivial = distinct post-call state digests of calls made while at least one queue held >= 2 records".into()
     }
@@ -87,6 +90,14 @@ impl Monitor for C05 {
             acc.eval();
             acc.count("calls_checked");
             acc.count(&format!("calls_{}", st.op.kind()));
+            if st.outcome.is_panic() {
+                acc.violation(
+                    format!("C05/call-panicked/{}/{:?}", st.op.kind(), st.outcome).chars().take(160).collect::<String>(),
+                    case,
+                    json!({"history": d.history_json(300), "call": st.op.to_json(), "observed": st.outcome.to_json(), "specified": want.to_json()}),
+                );
+                return;
+            }
             if st.outcome.is_io_err() {
                 acc.inconclusive(format!("I/O error from a live call: {:?}", st.outcome));
                 return;
